@@ -12,6 +12,7 @@ spec.first_dna(), spec.next_dna(d), spec.validate(d), DNA(...).use_spec(spec), s
 pg.geno.Sweeping proposals, DNA comparison operators.
 """
 
+import json
 import random as _random
 
 from harness.common.framework import Prop, CaseTimeout
@@ -48,6 +49,22 @@ def build_spec(j):
       return geno.Float(min_value=p['lo'][0] / p['lo'][1], max_value=p['hi'][0] / p['hi'][1],
                         name=p.get('name'), location=loc(p))
     if p['t'] == 'u':
+      if p.get('hook'):
+        # a user hook that enumerates the strings of `hook` in order (contract `HookContract` of the model)
+        seq = list(p['hook'])
+
+        def next_fn(dna, seq=seq):
+          if dna is None:
+            return geno.DNA(seq[0])
+          i = seq.index(dna.value)      # anything else: the hook raises
+          return geno.DNA(seq[i + 1]) if i + 1 < len(seq) else None
+
+        def random_fn(r, prev, seq=seq):
+          del prev
+          return geno.DNA(r.choice(seq))
+
+        return geno.CustomDecisionPoint(next_dna_fn=next_fn, random_dna_fn=random_fn,
+                                        name=p.get('name'), location=loc(p))
       return geno.CustomDecisionPoint(name=p.get('name'), location=loc(p))
     raise ValueError(p)
 
@@ -151,7 +168,10 @@ class C11(Prop):
           'sorted x position of the conditional candidates, thorough: all). '
           'Per spec: full enumeration when the size bound is <= 2000, members (first/last/random), '
           '8-24 one-step corruptions of members (index +-1, -1, n, swap, duplicate, drop/add child, type '
-          'change, stray value), scripted and seeded random_dna, DNA comparisons. Non-trivial: the spec '
+          'change, stray value), scripted and seeded random_dna (also with previous_dna), DNA comparisons; '
+          'plus specs whose custom decision points carry list-enumerating user hooks (root, space element first / '
+          'middle / last, inside conditional candidates of single and multi-choices): first_dna, next_dna with '
+          'attach_spec True and False, iter_dna, next_dna on members and on DNAs the hook rejects. Non-trivial: the spec '
           'has at least 2 DNAs or is non-finite; distinct: by case JSON.')
   trusted_base = [
       'translator translate/t_c11.py: shape tables of _space_size, next_value_for_choice, min_remaining_choices and '
@@ -161,8 +181,9 @@ class C11(Prop):
       'random.Random is replaced by a scripted oracle for the model comparison; seeded random.Random runs '
       'are checked by the oracle only',
       'modelled, not verified: validate / use_spec / space_size / first_dna / next_dna / random_dna / __cmp__ '
-      '(hand-written Lean mirror tied by correspondence); custom decision points\' user callbacks and hints '
-      'are outside the model; next_dna is compared on members AND on the one-step corruptions (tree / None / raises, '
+      '(hand-written Lean mirror tied by correspondence); custom decision points\' next_dna_fn hooks are PARAMETERS of the '
+      'model (PgModel/Geno/Hooks.lean, contract HookContract; the harness installs list-enumerating hooks), their '
+      'random_dna_fn and hints are outside the model; next_dna is compared on members AND on the one-step corruptions (tree / None / raises, '
       'after the binding that next_dna applies to its result)',
       'every clause of the property is a Lean theorem about the model (PgProps/C11.lean); the driver-internal '
       'checks iter == allValid and size == |allValid| on every enumerated spec are now redundant sanity checks',
@@ -200,6 +221,12 @@ class C11(Prop):
         _, script = G.ref_random(spec, rng)
         case['scripts'].append(script)
         case['seeds'].append(rng.below(1 << 30))
+    case['prevs'] = []
+    if not custom and case['scripts']:
+      # random_dna(previous_dna=…): a member, and a one-step corruption of it
+      cand = [d for d in case['dnas'] if d['kind'] == 'member'][:1] + [d for d in case['dnas'] if d['kind'] != 'member'][:1]
+      for d in cand:
+        case['prevs'].append({'prev': d['tree'], 'script': case['scripts'][0], 'member': d['kind'] == 'member'})
     trees = [d['tree'] for d in case['dnas']]
     for _ in range(min(4, len(trees))):
       case['cmps'].append([rng.choice(trees), rng.choice(trees)])
@@ -218,6 +245,9 @@ class C11(Prop):
           break
         spec = G.gen_spec(rng, True, cap)
       yield self.make_case(spec, rng, cap=cap)
+    # custom decision points with user hooks (first_dna / next_dna / iter_dna go through the hooks)
+    for _ in range(40 if tier == 'quick' else 400):
+      yield self.hooked_case(rng)
     # the exhaustive depth-1 family (and a slice of depth 2 built on top of it)
     fam = list(G.family_points())
     if tier == 'quick':
@@ -257,11 +287,71 @@ class C11(Prop):
       if G.size_bound(spec) <= cap:
         yield self.make_case(spec, rng, n_members=2, n_corrupt=6, n_random=1, cap=cap)
 
+  def hooked_case(self, rng):
+    """A small spec whose custom decision points have list-enumerating hooks, in every position: the
+    root itself, an element of the root space (first / last / middle), inside a conditional candidate of
+    a single or multi-choice."""
+    counter = [0]
+
+    def hook_point():
+      counter[0] += 1
+      n = rng.randint(1, 3)
+      base = ['a', 'b', 'c', 'dd', 'e'][:]
+      rng.shuffle(base)
+      return dict(G.U(name='h%d' % counter[0], loc=['u%d' % counter[0]]), hook=base[:n])
+
+    def small_choice():
+      n = rng.randint(2, 3)
+      k = rng.randint(1, 2)
+      d = rng.chance(0.5)
+      return G.C(k, [[] for _ in range(n)], d and k <= n, rng.chance(0.5), loc=['c%d' % rng.below(1000)])
+
+    shape = rng.below(6)
+    if shape == 0:
+      spec = hook_point()
+    elif shape == 1:
+      spec = G.S([hook_point(), small_choice()])
+    elif shape == 2:
+      spec = G.S([small_choice(), hook_point()])
+    elif shape == 3:
+      spec = G.S([small_choice(), hook_point(), hook_point()])
+    elif shape == 4:
+      spec = G.C(1, [[hook_point()], [], [small_choice(), hook_point()]], True, False, loc=['top'])
+    else:
+      k = 2
+      d, srt = rng.chance(0.5), rng.chance(0.5)
+      spec = G.C(k, [[hook_point()], [], [hook_point()]], d, srt, loc=['top'])
+    plain = json.loads(json.dumps(spec))
+
+    def strip(p):
+      if isinstance(p, dict):
+        p.pop('hook', None)
+        for v in p.values():
+          strip(v)
+      elif isinstance(p, list):
+        for v in p:
+          strip(v)
+    strip(plain)
+    case = self.make_case(plain, rng, n_members=1, n_corrupt=3, n_random=0, cap=10)
+    members = G.ref_all(spec)
+    picks = [rng.choice(members) for _ in range(min(3, len(members)))]
+
+    def foreign(t):
+      # the same tree with every string the hooks know replaced by one they do not know
+      return ['zz' if isinstance(t[0], str) else t[0], [foreign(c) for c in t[1]]]
+    case['hooked'] = {'spec': spec, 'fuel': 120, 'dnas': picks + [foreign(picks[0])] if picks else []}
+    return case
+
   def model_request(self, case):
+    if case.get('hooked'):
+      r = self.model_request(dict(case, hooked=None))
+      r['hooked'] = dict(case['hooked'], dnas=case['hooked'].get('dnas', []))
+      return r
     return {'op': 'space', 'spec': case['spec'], 'fuel': case['fuel'], 'sweep_cap': SWEEP_CAP,
             'want_first': not G.has_custom(case['spec']),
             'dnas': [d['tree'] for d in case['dnas']],
-            'draws': case['scripts'], 'cmps': case['cmps']}
+            'draws': case['scripts'], 'cmps': case['cmps'],
+            'prev_draws': [{'prev': p['prev'], 'draws': p['script']} for p in case.get('prevs', [])]}
 
   # -- implementation ---------------------------------------------------------------------
   def sweep(self, geno, spec, fuel):
@@ -289,6 +379,57 @@ class C11(Prop):
       raise
     except Exception as e:   # pylint: disable=broad-except
       return type(e).__name__
+
+  def run_hooked(self, h):
+    """first_dna / iter via next_dna (attach_spec True and False) / next_dna on given DNAs of a spec whose
+    custom points have hooks."""
+    spec = build_spec(h['spec'])
+    out, obs = {}, {}
+    try:
+      out['first'] = tree_of(spec.first_dna())
+    except CaseTimeout:
+      raise
+    except Exception as e:   # pylint: disable=broad-except
+      out['first'] = type(e).__name__
+
+    def run(attach):
+      dnas, ended = [], False
+      try:
+        d = None
+        for _ in range(h['fuel']):
+          d = spec.next_dna(d, attach_spec=attach)
+          if d is None:
+            ended = True
+            break
+          dnas.append(d)
+      except CaseTimeout:
+        raise
+      except Exception as e:   # pylint: disable=broad-except
+        return 'error', type(e).__name__, []
+      return {'dnas': [tree_of(d) for d in dnas], 'ended': ended}, None, dnas
+
+    out['iter'], obs['iter_error'], dnas = run(True)
+    obs['iter_unattached'], _, raw = run(False)
+    obs['bound'] = all(d.spec is not None for d in dnas)
+    obs['unbound'] = all(d.spec is None for d in raw)
+    obs['iter_dna'] = None
+    try:
+      obs['iter_dna'] = [tree_of(d) for _, d in zip(range(h['fuel']), spec.iter_dna())]
+    except CaseTimeout:
+      raise
+    except Exception as e:   # pylint: disable=broad-except
+      obs['iter_dna'] = type(e).__name__
+    nexts = []
+    for t in h.get('dnas', []):
+      try:
+        n = spec.next_dna(mk_dna(t))
+        nexts.append(None if n is None else tree_of(n))
+      except CaseTimeout:
+        raise
+      except Exception:   # pylint: disable=broad-except
+        nexts.append('error')
+    out['nexts'] = nexts
+    return out, obs
 
   def impl(self, case):
     from pyglove.core import geno
@@ -331,6 +472,8 @@ class C11(Prop):
         raise
       except Exception as e:   # pylint: disable=broad-except
         out['first'] = type(e).__name__
+    if case.get('hooked'):
+      out['hooked'], obs['hooked'] = self.run_hooked(case['hooked'])
     checks = []
     for d in case['dnas']:
       c = {}
@@ -369,6 +512,39 @@ class C11(Prop):
       except Exception as e:   # pylint: disable=broad-except
         randoms.append({'error': type(e).__name__})
     out['randoms'] = randoms
+    prev_randoms = []
+    for p in case.get('prevs', []):
+      r = ScriptedRandom(p['script'])
+      try:
+        prev = mk_dna(p['prev'])
+        if p['member']:
+          prev.use_spec(spec)
+        d = spec.random_dna(r, previous_dna=prev)
+        prev_randoms.append({'dna': tree_of(d), 'left': len(p['script']) - r.pos})
+      except CaseTimeout:
+        raise
+      except ScriptMismatch as e:
+        prev_randoms.append({'mismatch': str(e)[:200]})
+      except Exception as e:   # pylint: disable=broad-except
+        prev_randoms.append(None)
+        obs.setdefault('prev_errors', []).append([p['member'], type(e).__name__])
+    out['prev_randoms'] = prev_randoms
+    # iteration without attaching the spec
+    if case['fuel'] > 0:
+      try:
+        raw, d = [], None
+        for _ in range(case['fuel']):
+          d = spec.next_dna(d, attach_spec=False)
+          if d is None:
+            break
+          raw.append(d)
+        obs['iter_unattached'] = [tree_of(x) for x in raw]
+        obs['unattached_unbound'] = all(x.spec is None for x in raw)
+        obs['first_unattached'] = tree_of(spec.first_dna(attach_spec=False))
+      except CaseTimeout:
+        raise
+      except Exception as e:   # pylint: disable=broad-except
+        obs['iter_unattached'] = type(e).__name__
     seeded = []
     for seed in case['seeds']:
       try:
@@ -426,7 +602,10 @@ class C11(Prop):
         chk('random[%d]' % i, (ra['dna'], ra['left']), (rb and rb.get('dna'), rb and rb.get('left')))
       else:
         chk('random[%d]' % i, ra, rb)
+    if 'hooked' in a:
+      chk('hooked', a['hooked'], b.get('hooked'))
     chk('cmps', a['cmps'], b['cmps'])
+    chk('random_dna(previous_dna)', a.get('prev_randoms', []), b.get('prev_randoms', []))
     chk('lens', (len(a['checks']), len(a['randoms'])), (len(b['checks']), len(b['randoms'])))
     return '; '.join(diffs) if diffs else None
 
@@ -434,6 +613,25 @@ class C11(Prop):
   def oracle(self, case, out):
     spec = case['spec']
     m, obs = out['model'], out['obs']
+    if case.get('hooked'):
+      # exact enumeration with user hooks under contract: every member once, in both attach modes, then the end
+      hm, ho = m['hooked'], obs['hooked']
+      ref = {G.freeze(t) for t in G.ref_all(case['hooked']['spec'])}
+      it = hm['iter']
+      if isinstance(it, str):
+        return {'signature': 'hooked-iter-raises', 'what': 'next_dna raised %s on %s' % (ho.get('iter_error'), case['hooked']['spec'])}
+      got = [G.freeze(t) for t in it['dnas']]
+      if not it['ended'] or len(set(got)) != len(got) or set(got) != ref:
+        return {'signature': 'hooked-iter-not-exact',
+                'what': 'with hooks: %d DNAs (ended=%s, distinct=%d), members=%d; spec %s' % (
+                    len(got), it['ended'], len(set(got)), len(ref), case['hooked']['spec'])}
+      if ho['iter_unattached'] != it or ho['iter_dna'] != it['dnas']:
+        return {'signature': 'attach-spec-false-differs',
+                'what': 'hooked spec: next_dna(attach_spec=False) / iter_dna differ from next_dna()'}
+      if not ho['bound'] or not ho['unbound']:
+        return {'signature': 'attach-spec-binding', 'what': 'attach_spec=True left a DNA unbound or attach_spec=False bound one'}
+      if hm['first'] != (it['dnas'][0] if it['dnas'] else None):
+        return {'signature': 'first-not-first-of-iter', 'what': 'hooked first_dna %s' % hm['first']}
     finite = G.is_finite(spec)
     if finite and case['fuel'] > 0:
       ref = G.ref_all(spec)
@@ -476,6 +674,18 @@ class C11(Prop):
         return {'signature': 'iter-unbound', 'what': 'iter_dna returned a DNA without spec'}
     elif finite is False and m['size'] != -1:
       return {'signature': 'infinite-space-with-size', 'what': 'space_size=%s for a spec with float/custom points' % m['size']}
+    if finite and case['fuel'] > 0 and 'iter_unattached' in obs:
+      if obs['iter_unattached'] != m['iter']['dnas'] or not obs.get('unattached_unbound') or \
+          obs.get('first_unattached') != m.get('first'):
+        return {'signature': 'attach-spec-false-differs',
+                'what': 'next_dna / first_dna with attach_spec=False differ from the bound iteration or return '
+                        'bound DNAs: %s' % str(obs['iter_unattached'])[:300]}
+    for (was_member, err) in obs.get('prev_errors', []):
+      if was_member:
+        return {'signature': 'random-previous-raises', 'what': 'random_dna(previous_dna=<member>) raised %s' % err}
+    for r, p in zip(m.get('prev_randoms', []), case.get('prevs', [])):
+      if r and 'dna' in r and not G.ref_valid(spec, r['dna']):
+        return {'signature': 'random-not-a-member', 'what': 'random_dna(previous_dna=%s) returned %s' % (p['prev'], r['dna'])}
     # validation and binding accept exactly the members
     for d, c in zip(case['dnas'], m['checks']):
       if 'construct' in c:
